@@ -41,6 +41,7 @@ void    vs_fail(const char *clause, const char *fmt, ...)
     __attribute__((format(printf, 2, 3), noreturn));
 // the injected fault / cut / deviation was really consumed by the library
 void    vs_nontrivial(void);
+void    vs_case(void); // one enumerated case inside a batched execution
 extern int vs_atomic_points; // nni_atomic RMW are scheduling points
 extern int vs_io_points;     // wrapped I/O calls are IO choice points
 extern int vs_io_maxclamp;   // clamp alternatives 1..maxclamp (and total-1)
